@@ -300,7 +300,7 @@ fn aio_cfg(preset: u64) -> FiberAioConfig {
 }
 const AIO_SIZES: [usize; 12] = [0, 1, 4095, 4096, 65535, 65536, 65537, 131072, 262143, 262144, 262145, 300000];
 /// file j has AIO_SIZES[(seed + j) % 12] bytes (with the 1-byte buffers of preset 2, where every byte is a round trip to the blocking
-/// pool: one of the first four sizes), byte i of it is (i * 31 + j * 7 + seed) mod 251
+/// pool: 0, 1, 300 or 511 bytes), byte i of it is (i * 31 + j * 7 + seed) mod 251
 fn aiofiles_case(cx: &mut Ctx, rt: usize, preset: u64, nfiles: usize, limit: usize, seed: u64) {
     let cell = "FiberIoUtils::process_files_parallel (FiberAio whole-file helpers)";
     let case = json!({"cell": "aiofiles", "kind": 28, "rt": rt, "preset": preset, "n": nfiles, "limit": limit, "seed": seed, "ops": []});
@@ -308,9 +308,11 @@ fn aiofiles_case(cx: &mut Ctx, rt: usize, preset: u64, nfiles: usize, limit: usi
     s_only(cx, cell);
     let dir = cx.objs.tmp_dir("aio");
     let d2 = dir.clone();
-    let content = move |j: usize| -> Vec<u8> { let n = AIO_SIZES[(seed as usize + j) % if preset == 2 { 4 } else { 12 }]; (0..n).map(|i| ((i * 31 + j * 7 + seed as usize) % 251) as u8).collect() };
+    // (preset 2 has 1-byte buffers: every byte is four round trips to the blocking pool, so its files stay below 600 bytes - on a
+    // loaded machine two 4 KiB files took longer than the 30 s after which a case is declared hung)
+    let content = move |j: usize| -> Vec<u8> { let n = if preset == 2 { [0usize, 1, 300, 511][(seed as usize + j) % 4] } else { AIO_SIZES[(seed as usize + j) % 12] }; (0..n).map(|i| ((i * 31 + j * 7 + seed as usize) % 251) as u8).collect() };
     let r = guarded(|| with_rt(rt, async move {
-        tokio::time::timeout(Duration::from_secs(30), async move {
+        tokio::time::timeout(Duration::from_secs(90), async move {
             let aio = match if preset == 0 && seed % 2 == 0 { FiberAio::new() } else { FiberAio::with_config(aio_cfg(preset)) } { Ok(a) => Arc::new(a), Err(e) => return Some(format!("FiberAio could not be built: {:?}", e)) };
             let _ = (aio.io_provider(), aio.config().read_buffer_size);
             let paths: Vec<String> = (0..nfiles).map(|j| d2.join(format!("f{}", j)).to_string_lossy().to_string()).collect();
@@ -339,7 +341,7 @@ fn aiofiles_case(cx: &mut Ctx, rt: usize, preset: u64, nfiles: usize, limit: usi
     let _ = std::fs::remove_dir_all(dir);
     match r {
         Err(p) => cx.sum.fail(cell, None, case, &format!("panicked: {}", p)),
-        Ok(Err(_)) => cx.sum.fail(cell, None, case, "did not return (30 s)"),
+        Ok(Err(_)) => cx.sum.fail(cell, None, case, "did not return (90 s)"),
         Ok(Ok(Some(p))) => cx.sum.fail(cell, None, case, &p),
         Ok(Ok(None)) => {}
     }
